@@ -134,6 +134,7 @@ pub fn run(req: &mut J) -> Result<J, String> {
             })
         }
         "inventory" => crate::inv::run(req),
+        "config" => crate::cfg::run(req),
         _ => Err(format!("unknown op {op}")),
     }
 }
